@@ -123,6 +123,10 @@ func (c *ChainIndex[T]) UpdateLastAccepted(ctx context.Context, blk T) error {
 	}
 
 	deleteBlkID, err := c.GetBlockIDAtHeight(ctx, expiryHeight)
+	if errors.Is(err, database.ErrNotFound) {
+		// The block to prune was never stored (ie. after state sync), so there is nothing to delete.
+		return batch.Write()
+	}
 	if err != nil {
 		return err
 	}
